@@ -546,3 +546,7 @@ pub mod verif_hooks_c17;
 #[cfg(feature = "verif-hooks")]
 #[path = "verif_hooks_mqttconn.rs"]
 pub mod verif_hooks_mqttconn;
+
+#[cfg(feature = "verif-hooks")]
+#[path = "verif_hooks_unitmetrics.rs"]
+pub mod verif_hooks_unitmetrics;
